@@ -249,3 +249,88 @@ func init() {
 		},
 	}
 }
+
+func init() {
+	props["C05"] = &propDef{
+		ID:       "C05",
+		Anchored: []string{"FlatIterator", "FlatMaskedIterator", "MultIterator", "newFlatIterator", "hashIntArray", "genIterator", "BroadcastStrides", "IteratorFromDense"},
+		Bounds: map[string]interface{}{"ap_level": "rank 1-3 (thorough 4), every dim symbolic in 1..3 (rank 4: 1..2) enumerated by solver splitting, every stride symbolic in [0,7] (or all 1 for the vector-like fast path); programs over {fresh pass, Reset after exhaustion, SetForward, SetReverse, partial pass of symbolic length then Reset}",
+			"masks": "every mask bit symbolic over <=6 (quick) / <=8 (thorough) elements; valid / invalid / validity stepping, forward and reverse", "dense_level": "iterators taken from real tensors of layouts C,F,T,S,SS,M incl. vector-like shapes; offsets compared with the strides At uses and with the elements",
+			"multi": "2-3 equally shaped operands with different layouts (concrete strides: these instances are reported as concrete_only)", "loop_unwind": "trip counts concrete after dim splitting (<=27 yields + 2)"},
+		Instances: func(tier string, seed int64) []Instance {
+			var out []Instance
+			progs := []string{"n", "nx", "F", "R", "nxF", "FR", "RF", "pF", "pR", "RxR", "RpR", "nR"}
+			maxRank := 3
+			if tier == "thorough" {
+				maxRank = 4
+				progs = append(progs, "FxF", "RFR", "pRpF", "FpR", "nxFR")
+			}
+			for r := 1; r <= maxRank; r++ {
+				md := 3
+				if r == 4 {
+					md = 2
+				}
+				for _, p := range progs {
+					for _, ones := range []int{0, 1} {
+						if tier == "quick" && r == 3 && len(p) == 3 && ones == 0 {
+							continue
+						}
+						out = append(out, mkInst("vhC05Flat", map[string]interface{}{"rank": r, "maxdim": md, "prog": p, "ones": ones}, "rank", "prog", "ones"))
+					}
+				}
+			}
+			// masked
+			mshapes := [][]int{{}, {4}, {3, 1}, {1, 3}, {2, 3}, {2, 1, 2}}
+			if tier == "thorough" {
+				mshapes = append(mshapes, []int{8}, []int{2, 4}, []int{2, 2, 2}, []int{1, 1, 5})
+			}
+			for _, sh := range mshapes {
+				for _, mode := range []string{"valid", "invalid", "validity"} {
+					for _, rev := range []int{0, 1} {
+						out = append(out, mkInst("vhC05Masked", map[string]interface{}{"shape": sh, "mode": mode, "reverse": rev}, "shape", "mode", "reverse"))
+					}
+				}
+			}
+			// dense level
+			dshapes := [][]int{{}, {3}, {1, 3}, {3, 1}, {2, 3}, {2, 1, 2}, {2, 2, 2}, {1, 1, 3}, {1, 3, 1}, {3, 1, 1}}
+			if tier == "thorough" {
+				dshapes = append(dshapes, []int{2, 2, 1, 2}, []int{1, 2, 3, 1}, []int{3, 2, 2})
+			}
+			for _, sh := range dshapes {
+				for _, lay := range []string{"C", "F", "T", "S", "SS", "M"} {
+					if len(sh) == 0 && lay != "C" {
+						continue
+					}
+					if (lay == "S" || lay == "SS" || lay == "M") && (len(sh) == 0 || sh[len(sh)-1] < 2) {
+						continue
+					}
+					for _, lt := range []int{0, 1} {
+						if lt == 1 && (lay == "T" || len(sh) < 2) {
+							continue
+						}
+						out = append(out, mkInst("vhC05Dense", map[string]interface{}{"shape": sh, "layout": lay, "prog": "nFR", "lazyT": lt}, "shape", "layout", "lazyT"))
+					}
+				}
+			}
+			// multi-iterator
+			lays := []string{"C", "F", "T", "S", "SS"}
+			for _, sh := range [][]int{{2, 3}, {3}, {2, 2, 2}, {3, 1}, {1, 3}} {
+				for i, la := range lays {
+					for j, lb := range lays {
+						if (la == "S" || la == "SS" || lb == "S" || lb == "SS") && sh[len(sh)-1] < 2 {
+							continue
+						}
+						if tier == "quick" && len(sh) != 2 && (i+j)%2 == 0 {
+							continue
+						}
+						out = append(out, mkInst("vhC05Mult", map[string]interface{}{"shape": sh, "la": la, "lb": lb, "lc": ""}, "shape", "la", "lb"))
+						if i == j+1 {
+							out = append(out, mkInst("vhC05Mult", map[string]interface{}{"shape": sh, "la": la, "lb": lb, "lc": "T"}, "shape", "la", "lb", "lc"))
+						}
+					}
+				}
+			}
+			return out
+		},
+	}
+}
